@@ -6,7 +6,7 @@ match-table: the case tables of the three MatchLevel implementations are extract
 x topic level kind x index==0 x is-system) and compared with 4.7; end-of-input rules of match_topic;
 the filter-vs-filter relation must be monotone w.r.t. the string relation (whenever sub is covered by
 sup at index i, every topic level matched by sub at i is matched by sup at i). param-use: every
-parameter of match_level_impl influences the result. match-loop: one iteration of match_topic (topic has a level / is exhausted x the filter's next level kind x result of match_level) is extracted and compared with 4.7 (filter exhausted -> false, `#` -> result of the level test, other levels continue iff they match; the level test is applied to the current topic level, that filter level and its index). parse-table: the per-level classifier of TryFrom<ByteString> (closure or loop form) is extracted and evaluated for sample level texts and positions (`+`, `#`, empty, text with a wildcard character -> error, `$..` at position 0 -> System, else Normal; stored text is the level's own), the input is split at `/`, positions count from 0, empty input is refused, the structural validator decides last. display: Display for TopicFilterLevel as a table (own text / nothing / `+` / `#`) - the inverse of the classifier - and the separator of Display for TopicFilter is `/`, written by position only (never depending on text written so far). Agreement of TopicFilter::is_valid (iterator combinators over level sequences) with the string validator is not decided. parse-table (continued): FromStr hands its argument to the parser unchanged. match-table (continued): `is_system` is evaluated on sample level texts (concrete-string call model) and must be true exactly for texts beginning with `$`. parse-table (continued): a TopicFilter value is built only where TopicFilter::is_valid gates the Ok result (who-may-construct).
+parameter of match_level_impl influences the result. match-loop: one iteration of match_topic (topic has a level / is exhausted x the filter's next level kind x result of match_level) is extracted and compared with 4.7 (filter exhausted -> false, `#` -> result of the level test, other levels continue iff they match; the level test is applied to the current topic level, that filter level and its index). parse-table: the per-level classifier of TryFrom<ByteString> (closure or loop form) is extracted and evaluated for sample level texts and positions (`+`, `#`, empty, text with a wildcard character -> error, `$..` at position 0 -> System, else Normal; stored text is the level's own), the input is split at `/`, positions count from 0, empty input is refused, the structural validator decides last. display: Display for TopicFilterLevel as a table (own text / nothing / `+` / `#`) - the inverse of the classifier - and the separator of Display for TopicFilter is `/`, written by position only (never depending on text written so far). Agreement of TopicFilter::is_valid (iterator combinators over level sequences) with the string validator is not decided. parse-table (continued): FromStr hands its argument to the parser unchanged. match-table (continued): `is_system` is evaluated on sample level texts (concrete-string call model) and must be true exactly for texts beginning with `$`. parse-table (continued): a TopicFilter value is built only where TopicFilter::is_valid gates the Ok result (who-may-construct). match-loop (continued): matches_filter and matches_topic return the result of the shared loop match_topic and nothing else.
 """
 import json, os, re
 from facts import *
